@@ -66,6 +66,8 @@ def op_geometry(c):
     def axis(i, kk, dd, ss, ep):
         ro = ro4[i] if ro4 is not None else 0
         rl = (rs4[i] if rs4 is not None else ishape[i] - ro) if ro4 is not None else ishape[i]
+        if rl < 0:            # SLICE with size -1 ("up to the end of the dimension"): the window is [ro, I)
+            rl = ishape[i] - ro
         return {"I": ishape[i], "ro": ro, "rl": rl, "wo": wo4[i], "O": ws4[i], "OT": oshape[i],
                 "k": 1 if nokernel else kk, "d": 1 if nokernel else dd, "s": 1 if nokernel else ss, "ep": [0, 0] if nokernel else ep}
     return {"cls": cls, "sp": ro4 is not None, "up": up, "pt": pt, "chk": chk, "full": not rolling(ofm), "i2": [],
